@@ -27,6 +27,28 @@ def showS : Stmt → String
   | .ite c t f => s!"(ite {showE c} {showS t} {showS f})"
   | .loop v lo hi st b => s!"(loop {v} {showE lo} {showE hi} {showE st} {showS b})"
 
+partial def parseR : Sexp → Option RStmt
+  | .list [.atom "skip"] => some .skip
+  | .list [.atom "ret"] => some .ret
+  | .list [.atom "base", s] => (parseStmt s).map .base
+  | .list [.atom "rseq", a, b] => do some (.seq (← parseR a) (← parseR b))
+  | .list (.atom "rseqs" :: ss) => do
+      let xs ← ss.mapM parseR
+      some (seqsR xs)
+  | .list [.atom "rite", c, t, f, e] => do
+      some (.ite (← parseExpr c) (← parseR t) (← parseR f) ((← e.nat?) != 0))
+  | _ => none
+
+def showR : RStmt → String
+  | .skip => "(skip)"
+  | .seq a b => s!"(rseq {showR a} {showR b})"
+  | .base s => s!"(base {showS s})"
+  | .ret => "(ret)"
+  | .ite c t f e => s!"(rite {showE c} {showR t} {showR f} {if e then 1 else 0})"
+
+@[noinline] def answerStore (σ : Store) (qs : List Loc) : String :=
+  showList (fun l => toString (σ l)) qs
+
 def answer (r : Except Refusal Unit) (out : Stmt) : String :=
   match r with
   | .ok () => s!"(ok {showS out})"
@@ -90,6 +112,17 @@ def handle (s : Sexp) : String :=
       let t : ReplaceIVTarget := ⟨v, lo, hi, st, body⟩
       answer (replaceIVValidate t) (replaceIVApply t)
     | _, _, _, _, _ => "bad-replaceiv"
+  | .list [.atom "fold", .list ss] =>
+    match ss.mapM parseR with
+    | some body =>
+      match foldValidate body with
+      | .ok () => "(ok (rseqs " ++ " ".intercalate ((foldApply body).map showR) ++ "))"
+      | .error e => s!"(refuse {e.name})"
+    | none => "bad-fold"
+  | .list [.atom "execr", r, qs] =>
+    match parseR r with
+    | some r => answerStore (execR r (storeOf [])).1 (qs.items.filterMap parseLoc)
+    | none => "bad-rstmt"
   | _ => "bad-op"
 
 def main : IO Unit := run handle
